@@ -60,6 +60,7 @@ class FnTranslator:
         if fn.args.vararg or fn.args.kwarg or fn.args.kwonlyargs:
             raise Unsupported(f"{fn.name}: star arguments")
         self.lists = set()          # local names that hold lists being built
+        self.transparent = set()    # dict names whose lookups are rendered as their argument
         self.cond_counter = 0
 
     # ---- expressions -------------------------------------------------------------------------
@@ -120,6 +121,14 @@ class FnTranslator:
                     raise Unsupported(f"{self.fn.name}: call of raising function {fname} inside an expression")
                 return "(" + " ".join([fname] + args) + ")", flags
             raise Unsupported(f"{self.fn.name}: call {fname}")
+        if isinstance(e, ast.Subscript) and isinstance(e.value, ast.Name) and e.value.id in self.transparent:
+            # a lookup in the address table: rendered as its argument (the table itself is the subject of C05_address)
+            return self.expr(e.slice, env)
+        if isinstance(e, ast.IfExp):
+            c, fc = self.cond(e.test, env)
+            a, fa = self.expr(e.body, env)
+            b, fb = self.expr(e.orelse, env)
+            return f"(if {c} then {a} else {b})", fc + fa + fb
         raise Unsupported(f"{self.fn.name}: expression {ast.dump(e)[:80]}")
 
     def cond(self, e, env):
@@ -141,6 +150,9 @@ class FnTranslator:
         if isinstance(e, ast.UnaryOp) and isinstance(e.op, ast.Not):
             t, f = self.cond(e.operand, env)
             return f"(!{t})", f
+        if isinstance(e, (ast.Call, ast.Name, ast.BinOp)):
+            t, f = self.expr(e, env)                                  # truth value of an int
+            return f"decide ({t} ≠ (0 : Int))", f
         raise Unsupported(f"{self.fn.name}: test {ast.unparse(e)}")
 
     def guard(self, flags, body):
@@ -277,6 +289,37 @@ class FnTranslator:
             raise Unsupported(f"{self.fn.name}: for-loop shape at line {s.lineno}")
         raise Unsupported(f"{self.fn.name}: statement {type(s).__name__} at line {s.lineno}")
 
+    def block_emit(self, stmts, env, acc, ind="  "):
+        """body of a `for x in xs:` loop that appends at most one item to `acc` per iteration:
+        the item as an `Option` (none = nothing appended)"""
+        if not stmts:
+            return "none"
+        s, rest = stmts[0], stmts[1:]
+        if isinstance(s, ast.Assign) and len(s.targets) == 1 and isinstance(s.targets[0], ast.Name):
+            t, f = self.expr(s.value, env)
+            if f:
+                raise Unsupported("conditionally bound name in loop body")
+            env2 = dict(env)
+            env2[s.targets[0].id] = True
+            return f"let {s.targets[0].id} := {t}\n{ind}" + self.block_emit(rest, env2, acc, ind)
+        if isinstance(s, ast.Expr) and isinstance(s.value, ast.Call) and isinstance(s.value.func, ast.Attribute) \
+                and s.value.func.attr == "append" and ast.unparse(s.value.func.value) == acc:
+            if rest:
+                raise Unsupported("statements after append")
+            t, f = self.expr(s.value.args[0], env)
+            if f:
+                raise Unsupported("conditionally bound name in appended item")
+            return f"some {t}"
+        if isinstance(s, ast.If):
+            if rest:
+                raise Unsupported("statements after the if-chain of a loop body")
+            c, fc = self.cond(s.test, env)
+            if fc:
+                raise Unsupported("conditionally bound name in loop test")
+            return (f"if {c} then\n{ind}  " + self.block_emit(list(s.body), env, acc, ind + "  ") +
+                    f"\n{ind}else\n{ind}  " + self.block_emit(list(s.orelse), env, acc, ind + "  "))
+        raise Unsupported(f"loop body statement {type(s).__name__} at line {s.lineno}")
+
     def ret(self, t):
         return f"@@RET@@({t})"
 
@@ -289,6 +332,20 @@ class FnTranslator:
             body = body.replace("@@RET@@", "")
         ps = " ".join(f"({p} : {t})" for p, t in self.params)
         return f"def {self.fn.name} {ps} :=\n  {body}\n"
+
+
+# (file, class, method, loop variable, accumulator, address-table names, Lean name, parameter order)
+LOOP_TARGETS = [
+    ("src/fqe/fci_graph.py", "FciGraph", "_build_mapping", "string", "value", ["index"], "build_mapping_entry",
+     ["string", "iorb", "jorb"]),
+]
+
+
+def find_loop(fn, var):
+    for node in ast.walk(fn):
+        if isinstance(node, ast.For) and isinstance(node.target, ast.Name) and node.target.id == var:
+            return node
+    raise Unsupported(f"{fn.name}: no loop over {var}")
 
 
 def main():
@@ -307,6 +364,22 @@ def main():
             known[name] = tr.may_raise
             chunks.append(f"/-- `{rel}`, `{name}` (line {fns[name].lineno}) -/\n" + text)
             summary.append((name, tr.may_raise))
+    for rel, cls, meth, var, acc, tables, lean_name, order in LOOP_TARGETS:
+        tree = ast.parse(open(os.path.join(REPO, rel)).read())
+        cdef = next((n for n in tree.body if isinstance(n, ast.ClassDef) and n.name == cls), None)
+        fn = next((n for n in (cdef.body if cdef else []) if isinstance(n, ast.FunctionDef) and n.name == meth), None)
+        if fn is None:
+            raise Unsupported(f"{rel}: {cls}.{meth} not found")
+        loop = find_loop(fn, var)
+        dummy = ast.parse("def %s(%s): pass" % (lean_name, ", ".join(f"{o}: int" for o in order))).body[0]
+        tr = FnTranslator(dummy, known)
+        tr.transparent = set(tables)
+        body = tr.block_emit(list(loop.body), {o: True for o in order}, acc)
+        ps = " ".join(f"({o} : Int)" for o in order)
+        chunks.append(f"/-- `{rel}`, `{cls}.{meth}` (line {fn.lineno}): what one iteration of the loop over `{var}` appends to\n"
+                      f"    `{acc}` (`none` = nothing); lookups in {tables} are rendered as their argument -/\n"
+                      f"def {lean_name} {ps} : Option (Int × Int × Int) :=\n  {body}\n")
+        summary.append((lean_name, False))
     hdr = ("/-\n  GENERATED by harness/translate/pyint.py from the Python sources of /repo (bitstring.py, util.py,\n"
            "  _fqe_control.py).  Do not edit: regenerated on every check run.\n-/\n"
            "import FqeVerif.Lemmas.PyPrelude\nset_option linter.unusedVariables false\nnamespace GenPy\nopen PyPrelude\n\n")
